@@ -63,6 +63,18 @@ def run(ctx):
         r = pz.reachable(0, avoid=wb, edge_filter=lambda s, d: (s, d) != equal_edge)
         ctx.instance(1)
         ok = dispatch_bb not in r
+        if not ok:
+            # the reset may come after the match (`if pc_bounds != Ordering::Equal { status = Wait }`): follow each non-Equal arm with what it
+            # establishes about the bounds local and only accept a path that is consistent with it
+            swl = kit.switch_on_discr_of_local(pz, bsw)
+            dl = swl[0]["l"] if swl and not swl[0].get("pr") else None
+            wit = None
+            for v_, x_ in list(t["targets"]) + [(None, t["otherwise"])]:
+                if (bsw, x_) == equal_edge or pz.term(x_)["k"] == "unreachable":
+                    continue
+                f0 = {dl: ("discr", v_) if v_ is not None else ("notdiscr", tuple(vv for vv, xx in t["targets"]))} if dl is not None else {}
+                wit = wit or kit.feasible_path_avoiding(pz, x_, dispatch_bb, wb, prog=prog, facts0=f0)
+            ok = wit is None
         ctx.oblig(ok, {"condition": "PC outside [origin, 0xFE00)", "wait assignments": len(wb)}, "must-pass WaitForAction on every non-Equal path")
         if not ok:
             p = _path(pz, 0, dispatch_bb, wb, equal_edge)
